@@ -147,7 +147,7 @@ def fam_enums(mm):
 def fam_core(mm):
     """one combined model with the most bug-prone edits, used by the quick tier on every run"""
     m = fam_messages(mm, True)
-    for f in (fam_keywords, fam_inherit_redeclare, fam_literal_union_member, fam_enums):
+    for f in (fam_keywords, fam_inherit_redeclare, fam_enums):
         x = f(mm)
         for sec in ("structures", "enumerations", "requests", "notifications", "typeAliases"):
             have = {json.dumps(e, sort_keys=True) for e in m[sec]}
@@ -168,7 +168,8 @@ def fam_core(mm):
 def systematic(mm):
     """[(name, model)] — the systematic part, exhaustive over targets"""
     al = [("alias", a["name"]) for a in mm["typeAliases"] if a["name"] != "LSPObject"]
-    en = [("enum", e["name"]) for e in mm["enumerations"]]
+    en = [("enum", e["name"]) for e in mm["enumerations"] if not e.get("supportsCustomValues")]
+    eo = [("enum", e["name"]) for e in mm["enumerations"] if e.get("supportsCustomValues")]
     st = [("struct", n) for n in ("Position", "Range", "Command", "TextEdit", "Location", "MarkupContent")] + [("base", b) for b in ("string", "integer", "uinteger", "decimal", "boolean", "DocumentUri", "URI")]
     return [
         ("identity", copy.deepcopy(mm)),
@@ -184,6 +185,7 @@ def systematic(mm):
         ("enums", fam_enums(mm)),
         ("refs-structs-base", fam_refs(mm, st, "S")),
         ("refs-enums", fam_refs(mm, en, "E")),
+        ("refs-open-enums", fam_refs(mm, eo, "O")),
         ("refs-aliases", fam_refs(mm, al, "A")),
     ]
 
@@ -191,7 +193,7 @@ def systematic(mm):
 # ---------------------------------------------------------------------------------------------- random edit sequences
 def rand_type(mm, rng, depth=0):
     names_s = [s["name"] for s in mm["structures"] if s["name"] not in ("LSPObject",) and not s["name"].startswith("_")]
-    names_e = [e["name"] for e in mm["enumerations"]]
+    names_e = [e["name"] for e in mm["enumerations"] if not e.get("supportsCustomValues")]   # open enums need a hand-written union hook: family refs-open-enums
     r = rng.random()
     if depth > 1 or r < 0.35:
         return rng.choice([STR, INT, UINT, DEC, BOOL, DURI, URI])
